@@ -34,6 +34,8 @@ func main() {
 		cmdEngineReplay(os.Args[2:])
 	case "lib-replay":
 		cmdLibReplay(os.Args[2:])
+	case "expr-replay":
+		cmdExprReplay(os.Args[2:])
 	case "cmp-replay":
 		cmdCmpReplay(os.Args[2:])
 	case "grb-faults":
